@@ -19,7 +19,7 @@ RULE = (
     "harness process.  Per struct and value (boundary then random; signed negatives, sub-byte "
     "fields, every container kind): DynamicSchema::EncodeJson (enumerators by name) must give the "
     "same bytes as StaticSchema::EncodeJson (enumerators by number), and DecodeJson of the canonical "
-    "bytes must give the same value from both; the reference codec arbitrates which side is wrong.  "
+    "bytes must give the same value from both; any difference between the two is a violation whichever side is wrong (cases where both differ from the reference codec in the same way are counted, C03 judges those).  "
     "ASan+UBSan on the loader and the interpretive codec.  Known finding cpp-dynamic-encode-unpacked "
     "is matched by its defect model (bytes == per-leaf byte-aligned concatenation) on structs that "
     "have a leaf that is not a whole number of bytes; everything else must agree exactly.  distinct = "
@@ -77,50 +77,59 @@ def check_batch(run, b, nrand):
             run.violation("no answer from the harness / reflection binary not loadable for %s" % name, case)
             return
         clean = all_leaves_whole_bytes(sch, ("struct", name))
+        # The property compares the two codecs with EACH OTHER: any difference in behaviour is a violation,
+        # whichever side is the wrong one (C03 judges the static side against the reference on its own).
         # ---- encode direction
-        if not se.startswith("OK "):
-            run.count("static_side_suspect")  # C03's business
-        elif not de.startswith("OK "):
-            run.violation("DynamicSchema::EncodeJson(%s) answered %s where the static codec encodes" % (name, de[:200]), case)
+        s_ok, d_ok = se.startswith("OK "), de.startswith("OK ")
+        if s_ok != d_ok:
+            run.violation("EncodeJson(%s): the static codec answered %s, the reflection-loaded one %s" % (name, se[:120], de[:120]), case)
             return
-        else:
+        if s_ok:
             sb, db = bytes.fromhex(se[3:]), bytes.fromhex(de[3:])
             run.count("encodes_compared")
             if sb != db:
-                if sb != canon:
-                    run.count("static_side_suspect")
-                elif not clean and db == ref.encode_leaf_aligned(sch, name, v):
+                if not clean and db == ref.encode_leaf_aligned(sch, name, v):
                     run.known_finding(K1, "dynamic encoder emits %s, static %s" % (db.hex()[:60], sb.hex()[:60]), {"struct": name, "fields": [(f["name"], S.ptype(f["type"])) for f in sch.structs[name]], "value": v})
                 else:
                     run.violation("reflection-loaded codec encodes %s to %s, the static codec to %s" % (name, db.hex()[:80], sb.hex()[:80]), case)
                     return
             else:
                 run.count("encodes_equal")
+                if sb != canon:
+                    run.count("both_codecs_differ_from_the_reference_alike")
                 run.case(sig="%s|%s|enc" % (sigs[name], CC.value_sig(v)))
+        else:
+            run.count("both_codecs_refuse_alike")
         # ---- decode direction
-        if not sd.startswith("OK "):
-            run.count("static_side_suspect")
-            continue
-        if not dd.startswith("OK "):
-            run.violation("DynamicSchema::DecodeJson(%s) answered %s where the static codec decodes" % (name, dd[:200]), case)
+        s_ok, d_ok = sd.startswith("OK "), dd.startswith("OK ")
+        if s_ok != d_ok:
+            run.violation("DecodeJson(%s): the static codec answered %s, the reflection-loaded one %s" % (name, sd[:120], dd[:120]), case)
             return
+        if not s_ok:
+            run.count("both_codecs_refuse_alike")
+            continue
+        sv = dv = None
+        s_err = d_err = None
         try:
             sv = PP.from_json(sch, ("struct", name), json.loads(sd[3:]))
-        except ValueError:
-            run.count("static_side_suspect")
-            continue
+        except ValueError as e:
+            s_err = str(e)
         try:
             dv = PP.from_json(sch, ("struct", name), json.loads(dd[3:]), True)
         except ValueError as e:
-            run.violation("reflection-loaded codec decodes %s to something the schema does not describe: %s" % (name, e), case)
-            return
+            d_err = str(e)
         run.count("decodes_compared")
+        if s_err or d_err:
+            if not (s_err and d_err):
+                run.violation("decoding the canonical bytes of %s: the %s codec returns JSON the schema does not describe (%s), the other one a proper value" % (name, "static" if s_err else "reflection-loaded", s_err or d_err), case)
+                return
+            run.count("both_codecs_differ_from_the_reference_alike")
+            continue
         if not ref.same(sv, dv):
-            if not ref.same(sv, v):
-                run.count("static_side_suspect")
-                continue
             run.violation("reflection-loaded codec decodes the canonical bytes of %s to a different value than the static codec" % name, case)
             return
+        if not ref.same(sv, v):
+            run.count("both_codecs_differ_from_the_reference_alike")
         run.count("decodes_equal")
         run.case(sig="%s|%s|dec" % (sigs[name], CC.value_sig(v)))
         if len(run.samples) < 3 and vi == 3 and len(json.dumps(PP.to_json(sch, ("struct", name), v))) < 200 and clean:
@@ -148,8 +157,6 @@ def run(run):
 
 def conclude(run):
     run.require("generations", "compiles", "encodes_compared", "encodes_equal", "decodes_compared", "decodes_equal")
-    if run.counters.get("static_side_suspect", 0) > 0 and not run.nviol:
-        run.inconclusive_because("the static codec disagreed with the reference codec %d times (see C03): C13 cannot arbitrate" % run.counters["static_side_suspect"])
 
 
 def replay(run, case):
